@@ -106,6 +106,7 @@ type Exec struct {
 	sorts  []sortEvent
 	rebinds map[ssa.Value][]rebind
 	inlines int
+	loopKs  []Term // iteration indices of the loops of this activation (instantiation points)
 	depth   int
 	invRecords []invRecord
 	extraInst  []Term
